@@ -490,11 +490,9 @@ fn format_socket_addr(
 fn parse_socket_addr<T: FromStr>(s: &str) -> Option<(T, u16)> {
     let (bracketed_addr, port) = s.rsplit_once(':')?;
 
-    if !bracketed_addr.starts_with('[') && bracketed_addr.ends_with(']') {
-        return None;
-    }
+    let addr = bracketed_addr.strip_prefix('[')?.strip_suffix(']')?;
 
-    let scion_addr: T = bracketed_addr[1..bracketed_addr.len() - 1].parse().ok()?;
+    let scion_addr: T = addr.parse().ok()?;
     let port: u16 = port.parse().ok()?;
 
     Some((scion_addr, port))
